@@ -60,7 +60,12 @@ func NewKeycloakProvider(p *ProviderData, opts options.KeycloakOptions) *Keycloa
 	})
 
 	provider := &KeycloakProvider{ProviderData: p}
-	provider.setAllowedGroups(opts.Groups)
+	// Backwards compatibility with the `--keycloak-group` option. Only replace
+	// the generic allowed groups when Keycloak groups are configured, an empty
+	// list would lift the `--allowed-group` restriction altogether.
+	if len(opts.Groups) > 0 {
+		provider.setAllowedGroups(opts.Groups)
+	}
 	return provider
 }
 
